@@ -157,7 +157,12 @@ def rule_check_mirror(ctx):
             is_eq = e[0] == "call" and ("PartialEq>::eq" in e[1] or "PartialEq::eq" in e[1])
             is_ne = e[0] == "call" and ("PartialEq>::ne" in e[1] or "PartialEq::ne" in e[1])
             good = False
-            if len(ands) == 1 and zero and (is_eq or is_ne):
+            if len(ands) == 1 and e[0] == "call" and e[1].endswith("Bitboard::is_empty") and len(e[2]) == 1 and mir.strip_copies(e[2][0]) == ands[0]:
+                # `(attackers & (1 << square)).is_empty()` false
+                a0, a1 = mir.strip_copies(mir.strip_refs(ands[0][2][0])), mir.strip_copies(mir.strip_refs(ands[0][2][1]))
+                bit = a1[0] == "bin" and a1[1].startswith("Shl") and a1[2][:2] == ("const", 1) and "::next" in expr_str(a1[3])
+                good = a0[0] == "var" and a0[1] in attackers and bit and c[1] == frozenset([False])
+            elif len(ands) == 1 and zero and (is_eq or is_ne):
                 a0, a1 = mir.strip_copies(mir.strip_refs(ands[0][2][0])), mir.strip_copies(mir.strip_refs(ands[0][2][1]))
                 bit = a1[0] == "bin" and a1[1].startswith("Shl") and a1[2][:2] == ("const", 1) and "::next" in expr_str(a1[3])
                 good = a0[0] == "var" and a0[1] in attackers and bit and c[1] == frozenset([is_ne])
@@ -852,6 +857,18 @@ def rule_capture_src(ctx):
                     cons = C.constraints_for(ix, cb, csym, vb)
                     ep = [next(iter(c[1])) for c in cons if "en_passant" in c[0] and len(c[1]) == 1]
                     rows[ep[-1] if ep else None] = expr_str(v[2][1]) if v[0] == "call" and v[1] == B_ + "get_piece" else expr_str(v)
+                    # `let on = if mv.en_passant { .. } else { mv.dest }; get_piece(on)`: the square is chosen in arms
+                    sqv = mir.strip_copies(v[2][1]) if v[0] == "call" and v[1] == B_ + "get_piece" and len(v[2]) == 2 else None
+                    if not ep and sqv is not None and sqv[0] == "var":
+                        ls = [l for l in range(len(cb.locals)) if cb.local_name(l) == sqv[1]]
+                        ds = cb.defs().get(ls[0], []) if len(ls) == 1 else []
+                        if len(ds) >= 2 and not any(cb.in_loop(d[0]) and False for d in ds) and all(d[2].get("k") not in ("call", "partial") for d in ds):
+                            for (db, di, drv) in ds:
+                                dcons = C.constraints_for(ix, cb, csym, db)
+                                dep = [next(iter(c[1])) for c in dcons if "en_passant" in c[0] and len(c[1]) == 1]
+                                if dep:
+                                    rows.pop(None, None)
+                                    rows[dep[-1]] = expr_str(csym.rvalue(drv))
         if rows:
             n += 1
             ctx.functions.add(cb.key)
